@@ -191,6 +191,12 @@ func (t *Terms) term(v ssa.Value) string {
 				}
 			}
 		}
+		if inner, ok := x.X.(*ssa.FieldAddr); ok {
+			// member of a struct held by value in another struct: s.state.running, not (&s.state).running
+			if it := t.T(inner); strings.HasPrefix(it, "&") {
+				return it + "." + fieldName(x.X, x.Field)
+			}
+		}
 		return "&" + t.T(x.X) + "." + fieldName(x.X, x.Field)
 	case *ssa.Field:
 		return t.T(x.X) + "." + fieldName(x.X, x.Field)
@@ -226,6 +232,20 @@ func (t *Terms) term(v ssa.Value) string {
 			return x.Op.String() + "(" + t.T(x.X) + ")"
 		}
 	case *ssa.BinOp:
+		// (a & K) == K for a single-bit constant K is the same value as (a & K) != 0
+		if x.Op == token.EQL {
+			for _, pr := range [][2]ssa.Value{{x.X, x.Y}, {x.Y, x.X}} {
+				and, ok1 := pr[0].(*ssa.BinOp)
+				k, ok2 := pr[1].(*ssa.Const)
+				if ok1 && ok2 && and.Op == token.AND && k.Value != nil && k.Value.Kind() == constant.Int {
+					if mk, ok := and.Y.(*ssa.Const); ok && mk.Value != nil && constant.Compare(mk.Value, token.EQL, k.Value) {
+						if n, ok := constant.Int64Val(k.Value); ok && n > 0 && n&(n-1) == 0 {
+							return "(" + t.T(and) + " != const:0)"
+						}
+					}
+				}
+			}
+		}
 		return "(" + t.T(x.X) + " " + x.Op.String() + " " + t.T(x.Y) + ")"
 	case *ssa.Call:
 		return t.callTerm(x, &x.Call)
